@@ -29,7 +29,7 @@ ALPHA = {
     "literals-ldx1": (["-literals"], {}, ["-ldflags=-X=main.version=v1"]),
     "literals-ldx2": (["-literals"], {}, ["-ldflags=-X=main.version=v2"]),
 }
-QUICK = ["default", "tiny", "literals", "seedA", "seedLong1", "seedLong2", "gogarble-lib", "ctrlflow", "tags", "ldx1", "literals-ldx1"]
+QUICK = ["default", "tiny", "literals", "seedLong1", "seedLong2", "gogarble-lib", "ctrlflow", "tags", "literals-ldx1"]
 names = QUICK if tier == "quick" else list(ALPHA)
 
 def sources(state):
@@ -78,7 +78,7 @@ if tier == "quick":
     for c in names:
         hist.append([("build", "default"), ("build", c)])
         if c != "default": hist.append([("build", c), ("build", "default")])
-    for c1, c2 in (("seedLong1", "seedLong2"), ("seedLong2", "seedLong1"), ("seedA", "seedLong1"), ("literals", "literals-ldx1"), ("literals-ldx1", "literals"), ("ldx1", "literals-ldx1"), ("tiny", "literals")):
+    for c1, c2 in (("seedLong1", "seedLong2"), ("seedLong2", "seedLong1"), ("literals", "literals-ldx1"), ("literals-ldx1", "literals"), ("tiny", "literals")):
         hist.append([("build", c1), ("build", c2)])
 else:
     for c1 in names:
